@@ -25,3 +25,6 @@ def nontrivial(case, model_out):
         return True
     w, c, x = [int(t, 16) for t in segs[0].split()[:3]]
     return x < (1 << w)
+
+# fids whose cases apply hint overrides addressed by (generator kind, occurrence) - see runner.default_judge
+OVERRIDE_FIDS = {"3003"}
